@@ -25,9 +25,9 @@ def valid_cfgs(ttls, gcis, maxputs):
 
 
 def tlc_replay(ctx, name, cfgs, *, max_now, max_bad, asfound=False, export=True, timeout=900, put_topics=PUT_TOPICS,
-               simulate=None, depth=None, sub_topics=SUB_TOPICS):
+               simulate=None, depth=None, sub_topics=SUB_TOPICS, gci_changes=()):
     consts = dict(Configs=cfg_set(cfgs), MaxNow=max_now, MaxBad=max_bad, PutTopics=put_topics, SubTopics=sub_topics,
-                  AsFound=asfound)
+                  AsFound=asfound, GCIChanges=Raw("{" + ", ".join(str(g) for g in gci_changes) + "}"))
     invs = list(INVS) + (["Export"] if export else [])
     d = core.write_mc(ctx, name, "Replay", consts, invariants=invs, view=None if simulate else "View")
     return core.run_tlc(ctx, d, name, timeout=timeout, expect_violation=asfound, simulate=simulate, depth=depth,
@@ -101,10 +101,17 @@ def run_C08(ctx):
         r = tlc_replay(ctx, "ReplayFinite", cfgs, max_now=0, max_bad=1)
         n, res = drive(ctx, "replay", r.stdout_path, "finite")
         absorb(ctx, res, agg)
+        # capacities that are no power of two and none of a small ring's: one topic, no rejected puts, filled, wrapped and wrapped again
+        r = tlc_replay(ctx, "ReplayFiniteBig", finite_cfgs([17, 20, 33], 3), max_now=0, max_bad=0, put_topics=Raw('{{""}}'), sub_topics=Raw('{{""}}'))
+        n, res = drive(ctx, "replay", r.stdout_path, "finite-big")
+        absorb(ctx, res, agg)
     else:
         sensitivity(ctx, finite_cfgs([2, 3], 1), 0)
         r = tlc_replay(ctx, "ReplayFinite", finite_cfgs([2, 3, 4, 5], 4), max_now=0, max_bad=1, timeout=3000)
         n, res = drive(ctx, "replay", r.stdout_path, "finite")
+        absorb(ctx, res, agg)
+        r = tlc_replay(ctx, "ReplayFiniteBig", finite_cfgs([17, 20, 24, 33, 48, 65], 3), max_now=0, max_bad=0, put_topics=Raw('{{""}}'), sub_topics=Raw('{{""}}'), timeout=3000)
+        n, res = drive(ctx, "replay", r.stdout_path, "finite-big")
         absorb(ctx, res, agg)
         r = tlc_replay(ctx, "ReplayFiniteWide", finite_cfgs([6, 7, 8], 3), max_now=0, max_bad=1, put_topics=Raw('{{""}, {"t"}}'), timeout=3000)
         n, res = drive(ctx, "replay", r.stdout_path, "finite-wide")
@@ -153,8 +160,10 @@ def valid_plan(ctx):
 def run_C09(ctx):
     agg = new_agg()
     sensitivity(ctx, valid_cfgs([2], [0], 2), 1)
-    for name, cfgs, max_now, max_bad, tps, sim, depth in valid_plan(ctx):
-        r = tlc_replay(ctx, name, cfgs, max_now=max_now, max_bad=max_bad, put_topics=tps, simulate=sim, depth=depth, timeout=3000)
+    plan = valid_plan(ctx) + [("ValidGCI", valid_cfgs([2], [1, 3], 4 if ctx.quick else 5), 4, 0, Raw('{{""}}'), None, None, (0, 1, 3))]
+    for name, cfgs, max_now, max_bad, tps, sim, depth, *more in plan:
+        r = tlc_replay(ctx, name, cfgs, max_now=max_now, max_bad=max_bad, put_topics=tps, simulate=sim, depth=depth, timeout=3000,
+                       gci_changes=more[0] if more else ())
         n, res = drive(ctx, "replay", r.stdout_path, name)
         absorb(ctx, res, agg)
     evidence(ctx, agg,
@@ -171,6 +180,7 @@ def run_C18(ctx):
     one, two = Raw('{{""}}'), Raw('{{""}, {"t"}}')
     if ctx.quick:
         plan = [("RetainFinite", finite_cfgs([2, 3, 4], 3), 0, 1, one, None, None),
+                ("RetainFiniteBig", finite_cfgs([17, 20, 33], 3), 0, 0, one, None, None),   # no power of two, no small ring's capacity
                 ("RetainValid", valid_cfgs([2], [0, 3], 8), 3, 0, one, None, None),
                 ("RetainValidTTL3", valid_cfgs([3], [1], 4), 5, 0, one, None, None),
                 # a rejected Put (ID check) still runs the collection that is due
@@ -179,13 +189,16 @@ def run_C18(ctx):
                 ("RetainValidDeep", [dict(kind="valid", n=0, auto=False, ttl=2, gci=0, maxputs=12)], 4, 0, one, None, None)]
     else:
         plan = [("RetainFinite", finite_cfgs([2, 3, 4, 5], 4), 0, 1, two, None, None),
+                ("RetainFiniteBig", finite_cfgs([17, 20, 24, 33, 48, 65], 3), 0, 0, one, None, None),
                 ("RetainValid", valid_cfgs([2, 3], [0, 1, 3], 9), 4, 0, one, None, None),
                 ("RetainValidDeep", [dict(kind="valid", n=0, auto=a, ttl=2, gci=g, maxputs=13) for a in (False, True) for g in (0, 3)], 5, 0, one, None, None),
                 ("RetainValidRejected", valid_cfgs([2, 3], [1, 2], 4), 5, 1, one, None, None),
                 ("RetainValidSim", valid_cfgs([3, 5], [0, 2, 7], 40), 60, 1, one, "num=60", 80)]
-    for name, cfgs, max_now, max_bad, tps, sim, depth in plan:
+    # the owner changes GCInterval in mid-history: what is due follows the interval now in force
+    plan.append(("RetainValidGCI", valid_cfgs([2], [1, 3], 4 if ctx.quick else 6), 4 if ctx.quick else 5, 0, one, None, None, (0, 1, 3)))
+    for name, cfgs, max_now, max_bad, tps, sim, depth, *more in plan:
         r = tlc_replay(ctx, name, cfgs, max_now=max_now, max_bad=max_bad, put_topics=tps, simulate=sim, depth=depth, timeout=3000,
-                       sub_topics=Raw('{{""}}'))
+                       sub_topics=Raw('{{""}}'), gci_changes=more[0] if more else ())
         n, res = drive(ctx, "retain", r.stdout_path, name)
         absorb(ctx, res, agg)
     evidence(ctx, agg,
